@@ -410,7 +410,12 @@ def build_tree(root, tree):
 _inited = []
 
 
-def make_context(src, bld):
+_env_cache = {}
+
+
+def make_context(src, bld, reuse_env=False):
+    """A real BuildContext on (src, bld).  reuse_env keeps one Environment
+    per process for the pair (tool detection is the expensive part)."""
     from bfg9000 import builtins
     from bfg9000.builtins import builtin
     from bfg9000.build_inputs import BuildInputs
@@ -419,10 +424,14 @@ def make_context(src, bld):
     if not _inited:
         builtins.init()
         _inited.append(1)
-    env = Environment(abspath(sandbox.BFGBIN), 'make', None, abspath(src),
-                      abspath(bld))
-    env.finalize({InstallRoot.prefix: abspath('/usr/local')}, (True, False),
-                 False)
+    env = _env_cache.get((src, bld)) if reuse_env else None
+    if env is None:
+        env = Environment(abspath(sandbox.BFGBIN), 'make', None, abspath(src),
+                          abspath(bld))
+        env.finalize({InstallRoot.prefix: abspath('/usr/local')},
+                     (True, False), False)
+        if reuse_env:
+            _env_cache[(src, bld)] = env
     build = BuildInputs(env, Path('build.bfg', Root.srcdir))
     ctx = builtin.BuildContext(env, build, None)
     ctx.path_stack.append(builtin.BuildContext.PathEntry(build.bfgpath))
